@@ -7,6 +7,8 @@ LE4 == {<<"set", k, u>> : k \in 0..3, u \in {<<>>, U1}} \cup {<<"clr", k>> : k \
        \cup {<<"mode", m>> : m \in {2, 3, 4}}
 LEQ == {<<"set", k, <<>>>> : k \in 0..3} \cup {<<"set", 1, U1>>} \cup {<<"clr", k>> : k \in 0..3} \cup {<<"reset", TRUE>>, <<"reset", FALSE>>, <<"cnt">>}
        \cup {<<"rdhist", 1>>, <<"wrhist", 0>>, <<"wrhist", 1>>, <<"wrid", TRUE>>, <<"wrid", FALSE>>, <<"mode", 2>>, <<"mode", 4>>}
+LE20 == {<<"set", k, <<>>>> : k \in 0..3} \cup {<<"clr", 1>>, <<"nmtreset", 130>>, <<"nmtreset", 129>>, <<"mode", 3>>, <<"mode", 4>>, <<"wrid", FALSE>>, <<"wrid", TRUE>>}
+PE20 == << <<"nmtreset", 130>>, <<"rdreg">>, <<"cnt">>, <<"get", 0>>, <<"get", 1>>, <<"get", 2>>, <<"get", 3>>, <<"set", 1, <<>>>>, <<"rdreg">>, <<"cnt">> >>
 PE == << <<"rdreg">>, <<"cnt">>, <<"get", 0>>, <<"get", 1>>, <<"get", 2>>, <<"get", 3>>, <<"mode", 2>>, <<"rdhist", 0>>, <<"rdhist", 1>>, <<"rdhist", 2>>,
          <<"set", 2, <<>>>>, <<"rdhist", 1>>, <<"clr", 2>>, <<"reset", FALSE>>, <<"rdreg">>, <<"cnt">> >>
 ===============================================================================
